@@ -2,4 +2,5 @@ INIT Init
 NEXT Next
 CONSTANTS
   MaxAsmLen = 3
+  ScaleSizes = {1000, 150000}
 CHECK_DEADLOCK FALSE
